@@ -98,7 +98,7 @@ impl Acc {
             }
         }
         self.violation_count += 1;
-        if self.violations.len() < 64 {
+        if self.violations.len() < 400 {
             self.violations.push(Violation {
                 part: self.part.clone(),
                 index: self.index,
@@ -331,6 +331,16 @@ pub fn finish(check: &Check, opts: &RunOpts, mut rep: Report) -> i32 {
     rep.acc.violations.sort_by(|a, b| (a.part.as_str(), a.index).cmp(&(b.part.as_str(), b.index)));
     let unknown: Vec<Violation> = std::mem::take(&mut rep.acc.violations);
     let known = std::mem::take(&mut rep.acc.known);
+    {
+        // triage aid (not part of the protocol): one line per collected violation
+        let d = vd.join(".work").join(check.id);
+        let _ = std::fs::create_dir_all(&d);
+        let mut out = String::new();
+        for v in &unknown {
+            out.push_str(&format!("{}\t{}\t{}\n", v.part, v.index, v.detail.replace('\n', " ⏎ ")));
+        }
+        let _ = std::fs::write(d.join("violations.txt"), out);
+    }
     let replay_dir = vd.join("replays").join(check.id);
     let mut lines = vec![];
     if !unknown.is_empty() {
